@@ -150,6 +150,8 @@ def oracle(case, obs) -> List[str]:
             if x[5] > 0 and x[7] > 0 and by.get(x[7], [0] * 6)[5] == -1:
                 if g[1] != x[7]:
                     out.append(f"rank {r}: device activity {i} linked to host call {x[7]} has parent {g[1]}")
+            if i in in_graph and g[1] < 0 and g[2] != 0:
+                out.append(f"rank {r}: top-level event {i} (no parent) has depth {g[2]}")
             if i in in_graph and g[1] >= 0:
                 if g[1] == i:
                     out.append(f"rank {r}: event {i} is its own parent")
